@@ -784,7 +784,55 @@ def _run_wire(sim, sc, steps, violation, probe, info, threaded):
             if not do_discover(where, kind == 'refresh'):
                 return
         elif kind in ('fail_discover', 'fail_refresh'):
-            continue
+            if threaded:
+                continue
+            # one present bulb answers the broadcast but then never one of
+            # its label / group / location queries: the discovery fails and
+            # the directory stays what it was
+            present = [b for b in net.bulbs if b.present]
+            if not present:
+                continue
+            victim = present[(si * 7) % len(present)]
+            req = ('GetLabel', 'GetGroup', 'GetLocation')[si % 3]
+            net.plan = [{'kind': 'drop_request', 'device': victim.idx,
+                         'request': req, 'occurrence': '*'}]
+            net.counts.clear()
+            snap = world.snapshot_directory(ls)
+            fails = ls.get_failed_discovers()
+            try:
+                if kind == 'fail_discover':
+                    r = ls.discover()
+                else:
+                    before_ages = {n: ls.get_light(n).get_age()
+                                   for n in list(ls.get_light_names())}
+                    t1 = sim.now
+                    ls.refresh()
+                    r = ls.get_failed_discovers() == fails
+            except core.SimAbort:
+                raise
+            except Exception as ex:
+                violation('raises', '{}: {}: {}'.format(
+                    where, type(ex).__name__, ex))
+                return
+            finally:
+                net.plan = []
+            probe('failed_discover')
+            if r is not False or ls.get_failed_discovers() != fails + 1:
+                violation('failure-not-reported',
+                          '{}: bulb {!r} never answered {} but the discovery '
+                          'returned {} (failures {}->{})'.format(
+                              where, victim.label, req, r, fails,
+                              ls.get_failed_discovers()))
+                return
+            if kind == 'fail_refresh':
+                # nobody was renewed: every light is judged by its age
+                _expire_wire(ls, model, before_ages, t1, sim.now, disc_len,
+                             [], probe)
+            elif world.snapshot_directory(ls) != snap:
+                violation('failed-discovery-changed-directory',
+                          '{}: {} -> {}'.format(
+                              where, snap, world.snapshot_directory(ls)))
+                return
         elif kind == 'step':
             check_step(ls.get_light_names(), step[1], step[2], violation,
                        where)
